@@ -7,7 +7,7 @@ COMMON_NOTE = ('trusted base = library models of networkx/asyncio/stdlib and the
                'Python subset and dropped constructs in DESIGN §2.2-2.3; a function the verifier cannot decide (contract no longer fits '
                'refactored code, unsupported construct, solver timeout) is UNDECIDED unless a registered BOUNDED stand-in (bounded/*.py: the real '
                'code on a stated finite family of inputs, DESIGN 9.8) takes over - reported as bounded in the evidence, never counted as proved; ')
-BOUNDED_PROPS = {'bounded/builder.py': ['C09', 'C15', 'C16', 'C17'], 'bounded/fsstore.py': ['C18'], 'bounded/viewer.py': ['C20'],
+BOUNDED_PROPS = {'bounded/builder.py': ['C03', 'C05', 'C09', 'C10', 'C11', 'C15', 'C16', 'C17'], 'bounded/fsstore.py': ['C18'], 'bounded/viewer.py': ['C20'],
                  'bounded/engine.py': ['C01', 'C02', 'C03', 'C04', 'C05', 'C06', 'C07', 'C08', 'C09', 'C10', 'C11', 'C12', 'C13', 'C14', 'C17', 'C19']}
 
 P = {
